@@ -270,6 +270,16 @@ def datadog(ctx, facts, rule_f, rule_w):
             # vec![0b10010001] is a boxed array literal: look for the constant anywhere in the body
             lead = any(o.get("v") == 0x91 for blk in se.blocks for s in blk["stmts"] if s["k"] == "assign"
                        for o in _ops(s["rv"]) if o["k"] == "const")
+        if not lead:
+            # the same header produced by the serializer: what is serialised is a one-element list whose element is the list of spans
+            # (msgpack writes a 1-element array as the single byte 0x91)
+            nested = [b for b in se.calls_re(r"serde::ser::Serialize.*::serialize$|Serialize>::serialize$", cleanup=False)
+                      if re.search(r"^&(alloc::vec::Vec<alloc::vec::Vec<fastrace_datadog::DatadogSpan|\[alloc::vec::Vec<fastrace_datadog::DatadogSpan<[^;]*>; 1\])", se.term(b)["arg_tys"][0])]
+            ones = [s for blk in se.blocks for s in blk["stmts"] if s["k"] == "assign" and s["rv"]["k"] == "agg" and "array" in s["rv"]
+                    and "DatadogSpan" in str(s["rv"]["array"])]
+            grows = se.calls_re(r"Vec::<T, A>::(push|extend\w*|insert|append)$", cleanup=False)
+            grows = [b for b in grows if "Vec<alloc::vec::Vec<fastrace_datadog::DatadogSpan" in se.term(b)["arg_tys"][0]]
+            lead = bool(nested) and bool(ones) and all(len(s["rv"]["ops"]) == 1 for s in ones) and not grows
         sm = bool(se.calls_re(r"rmp_serde::encode::Serializer::<W, C>::with_struct_map$|with_struct_map$", cleanup=False))
         ctx.check(lead and sm, rule_w, se.path, se.span,
                   "the body starts with 0x91 (array of one trace) and spans are written as string-keyed maps (with_struct_map)", "",
